@@ -193,6 +193,10 @@ def make_history(args):
     freq, _ = gen.gen_freq(rng, nf, kind="irregular")
     dirs0, _ = gen.gen_dirs(rng, nd, order="sorted")
     def newE():
+        if rng.random() < 0.12:
+            # a flat (constant, non-zero) spectrum: the watershed's early-return path
+            c = rng.choice([0.5, 2.0, 3.0])
+            return np.full((nt, nf, nd), c) if nt else np.full((nf, nd), c)
         if nt:
             return np.array([gen.gen_spectrum(rng, nf, nd, kind=rng.choice(["blobs", "noisy"]))[0] + 0.015625 for _ in range(nt)])
         return gen.gen_spectrum(rng, nf, nd, kind=rng.choice(["blobs", "noisy"]))[0] + 0.015625
@@ -266,8 +270,11 @@ def make_history(args):
             results.append(None)
         elif r < 0.8:
             mk, mth = rng.randint(2, 9), rng.randint(2, 9)
-            if rng.random() < 0.5:
+            u = rng.random()
+            if u < 0.35:
                 mk, mth = nd, nf  # same number of bins as the object under test, different shape
+            elif u < 0.7:
+                mk, mth = nf, nd  # exactly the shape of the object under test (the static buffers are reused as they are)
             ops.append(f"pt:{mk}:{mth}")
             z = np.array([[rng.random() for _ in range(mth)] for _ in range(mk)])
             np_ptm3(z, z, np.linspace(0.05, 0.4, mk), np.linspace(0, 360, mth, endpoint=False), parts=2)
